@@ -508,6 +508,10 @@ func (c *Context) Sqrt(d, x *Decimal) (Condition, error) {
 	f.Exponent = int32(-nd)
 	nc := c.WithPrecision(workp)
 	nc.Rounding = RoundHalfEven
+	// The iteration works on f in [0.01, 1); it must not be subject to the
+	// caller's exponent range, which is applied to the final result only.
+	nc.MaxExponent = MaxExponent
+	nc.MinExponent = MinExponent
 	ed := MakeErrDecimal(nc)
 	// Set approx to the first guess, based on whether e (the exponent part of x)
 	// is odd or even.
@@ -546,22 +550,62 @@ func (c *Context) Sqrt(d, x *Decimal) (Condition, error) {
 		ed.Mul(&approx, &tmp, decimalHalf)
 	}
 
-	// At this point the paper says: "approx is now within 1 ulp of the properly
-	// rounded square root off; to ensure proper rounding, compare squares of
-	// (approx - l/2 ulp) and (approx + l/2 ulp) with f." We originally implemented
-	// the proceeding algorithm from the paper. However none of the tests take
-	// any of the branches that modify approx. Our best guess as to why is that
-	// since we use workp + 5 instead of the + 2 as described in the paper,
-	// we are more accurate than this section needed to account for. Thus,
-	// we have removed the block from this implementation.
-
+	// approx is now within a few units of its last (guard) digit of the root of f.
+	// Rounding it directly can double-round when the root lies that close to a
+	// rounding boundary, and cannot tell whether the result is exact. As in the
+	// final step of the paper, settle this by comparing squares exactly: truncate
+	// approx to workp+2 digits, move it to the largest value a of that many digits
+	// with a*a <= f, and, if a*a != f, append a sticky digit standing for the rest
+	// of the root so that the single rounding below is correct and raises Inexact.
 	if err := ed.Err(); err != nil {
 		return 0, err
 	}
+	exact := Context{MaxExponent: MaxExponent, MinExponent: MinExponent}
+	tc := exact.WithPrecision(workp + 2)
+	tc.Rounding = RoundDown
+	var a, ulp, sq Decimal
+	eed := MakeErrDecimal(&exact)
+	if _, err := tc.Round(&a, &approx); err != nil {
+		return 0, err
+	}
+	ulp.SetFinite(1, a.Exponent)
+	// approx is a few units off at most, so each loop runs a few times; the
+	// step limit only keeps a bad approximation from turning into a hang.
+	const maxSteps = 1000
+	steps := 0
+	for eed.Mul(&sq, &a, &a); eed.Err() == nil && sq.Cmp(&f) > 0; eed.Mul(&sq, &a, &a) {
+		eed.Sub(&a, &a, &ulp)
+		if steps++; steps > maxSteps {
+			return 0, errors.New("sqrt: approximation did not converge")
+		}
+	}
+	for eed.Err() == nil {
+		eed.Add(&tmp, &a, &ulp)
+		eed.Mul(&sq, &tmp, &tmp)
+		if sq.Cmp(&f) > 0 {
+			break
+		}
+		a.Set(&tmp)
+		if steps++; steps > maxSteps {
+			return 0, errors.New("sqrt: approximation did not converge")
+		}
+	}
+	eed.Mul(&sq, &a, &a)
+	if err := eed.Err(); err != nil {
+		return 0, err
+	}
+	if sq.Cmp(&f) != 0 {
+		a.Coeff.Mul(&a.Coeff, bigTen)
+		a.Coeff.Add(&a.Coeff, bigOne)
+		a.Exponent--
+	}
+	approx.Set(&a)
 
 	d.Set(&approx)
 	d.Exponent += int32(e / 2)
 	nc.Precision = c.Precision
+	nc.MaxExponent = c.MaxExponent
+	nc.MinExponent = c.MinExponent
 	nc.Rounding = RoundHalfEven
 	res := nc.round(d, d)
 	return nc.goError(res)
